@@ -7,8 +7,10 @@ import (
 	"encoding/base64"
 	"fmt"
 	"math/rand"
+	"net"
 	"os"
 	"path/filepath"
+	"syscall"
 	"testing"
 	"time"
 
@@ -122,3 +124,30 @@ func unb64(s string) []byte {
 	b, _ := base64URL.DecodeString(s)
 	return b
 }
+
+// ovlRaiseNoFile lifts the soft descriptor limit to the hard limit: the tests create hundreds of agents,
+// listeners and client connections in one process.
+func ovlRaiseNoFile() {
+	var l syscall.Rlimit
+	if syscall.Getrlimit(syscall.RLIMIT_NOFILE, &l) == nil && l.Cur < l.Max {
+		l.Cur = l.Max
+		syscall.Setrlimit(syscall.RLIMIT_NOFILE, &l) //nolint:errcheck
+	}
+}
+
+// ovlSasl serves the agent's saslauthd frontend on a listener the test owns, so that it can be closed again.
+func ovlSasl(path string, iface *Store) (stop func()) {
+	os.Remove(path) //nolint:errcheck
+	addr, err := net.ResolveUnixAddr("unix", path)
+	if err != nil {
+		return func() {}
+	}
+	ln, err := net.ListenUnix("unix", addr)
+	if err != nil {
+		return func() {}
+	}
+	go runSaslAuthSocketListener(ln, iface) //nolint:errcheck
+	return func() { ln.Close() }            //nolint:errcheck
+}
+
+func init() { ovlRaiseNoFile() }
